@@ -86,7 +86,9 @@ def visible(url):
 
 
 def diff_visible(a, b):
-    return [k for k in a if a[k] != b[k]]
+    # The property speaks about visible revisions/inventories/texts/signatures and about
+    # what is *listed*; unlisted leftover files under packs/ or indices/ are not judged.
+    return [k for k in a if a[k] != b[k] and k not in ("packs", "indices")]
 
 
 class Withholder:
